@@ -344,7 +344,7 @@ class Recognizer(IRecognizer):
         if len(recognized_subclasses) == 0:
             message = 'Failed to recognize {}'.format(
                     type_to_desc(expected_type))
-            if top:
+            if top or not causes:
                 message += '\n{}'.format(indent(str(node.start_mark), '  '))
             return set(), (message, causes)
 
@@ -358,7 +358,8 @@ class Recognizer(IRecognizer):
             message = ('{}\nCould not determine which of the following types'
                        ' this is: {}').format(node.start_mark, cjoin(
                            'or', map(type_to_desc, recognized_subclasses)))
-            return recognized_subclasses, (message, causes)
+            # the ambiguity is the error; why other classes failed is not
+            return recognized_subclasses, (message, [])
 
         # Tags that don't match with what we recognized are an error,
         # because silently ignoring the conflict would get confusing.
